@@ -1,9 +1,10 @@
 #!/usr/bin/env python3
 """C22: every backend enforces the same OKL rules (E2 bounded-exhaustive generation).
 
-Programs (gen.py): the 17 single-feature valid kernels and, for each of them, every placement of every single edit
+Programs (gen.py): the 17 single-feature valid kernels, 2 structural ones (OKL loops in both branches of an if, under a
+plain loop; thorough: 6 two-feature kernels) and, for each of them, every placement of every single edit
 from a fixed list (return type, attribute of each OKL loop, each header form on each OKL loop, each statement of a
-21-statement list inserted at every position of every block, @shared/@exclusive at global scope, nesting edits).
+22-statement list inserted at every position of every block, @shared/@exclusive at global scope, nesting edits).
 A boring reference model of the rules named in the property (tree walk in gen.reference) classifies every program as
 rule-breaking (with the broken rules), valid, or outside the rule list (counted, not judged).
 
@@ -122,7 +123,7 @@ def main():
             print("FAILS:", sig)
         sys.exit(1 if v else 0)
 
-    progs = gen.programs()
+    progs = gen.programs(thorough=(c.tier == "thorough"))
     res, complete = run_programs(exe, [p["text"] for p in progs], os.path.join(c.scratch, "run"), env)
     if not complete:
         c.harness_error("driver run incomplete (%d of %d programs)" % (len(res), len(progs)))
@@ -172,7 +173,7 @@ def main():
         programs_per_broken_rule=dict(sorted(rules_seen.items())),
         distinct_rejection_messages=len(msgs), accepted_per_translator=dict(zip(MODES, per_mode_acc)),
         variant="rel (fresh parser per program and translator)",
-        bound="17 base kernels x every placement of one edit: 5 return types, every other attribute on each OKL loop (6 @tile attribute pairs), 35 header forms on each OKL loop, 21 statements at every position of every block, 14 declarations at global scope, 3 nesting edits per leaf @inner loop, 1 appended launch")
+        bound="%d base kernels (17 single-feature + 2 structural%s) x every placement of one edit: 5 return types, every other attribute on each OKL loop (6 @tile attribute pairs), 36 header forms (17 valid, 19 invalid) on each OKL loop, 22 statements at every position of every block, 9 @shared/@exclusive declarations at global scope, as kernel argument and in a helper function, 3 nesting edits per leaf @inner loop, 1 appended launch, 4 second kernels" % (len(set(p["base"] for p in progs)), ", 6 two-feature kernels" if c.tier == "thorough" else ""))
     c.assumptions += [
         "reference model of the rules = gen.reference (tree walk); header validity follows the translator's own published rule text (init: one integer declaration with initialiser; check: iterator compared by < <= > >=; update: ++ -- += -= towards the bound)",
         "programs that are outside the property's rule list (use of @shared/@exclusive outside @inner after an attribute edit, break outside any loop) are counted, not judged",
